@@ -699,6 +699,12 @@ def _run(res, tier, seed, proofs_ok):
         'keywords, LAT, FILL arrays, unknown keywords, missing base); '
         'non-trivial = a deck with at least one LIKE card; distinct by text')
 
+    res.extra['tier_depth'] = (
+        'quick: 150 valid + 16 importance-lowering + 12 MAT=0 + 160 edge decks, '
+        'tie:canon on every second deck, 40 decks x 60 points; thorough: 1200 + '
+        '120 + 80 + 1200 decks (every edge text about 9 times, with random '
+        'companions and bases), tie:canon and the canon-defined census on every '
+        'deck, 300 decks x 60 points')
     # ---- 1. corpus of minimised cases (former findings included) ----
     for name, a_text, b_text, detail in corpus_failures():
         res.violation('impl-violation',
@@ -727,8 +733,19 @@ def _run(res, tier, seed, proofs_ok):
         res.count('stream:' + ('imp-decreasing' if decreasing else
                                'void-mat' if voiding else 'valid'))
         for c in deck['cells']:
-            for key in c.get('but', {}):
+            for key, val in c.get('but', {}).items():
                 res.count('but:' + key)
+                if key == 'trcl' or (key == 'fill' and val.get('tr') is not None):
+                    tr = val if key == 'trcl' else val['tr']
+                    kind = 'by-number' if isinstance(tr, tuple) else \
+                        ('starred' if tr.get('star') else
+                         'translation' if tr.get('B') is None else 'matrix')
+                    res.count(f'but:{key}:{kind}')
+                if key == 'fill':
+                    res.count('but:fill:' + ('array' if 'ranges' in val
+                                             else 'universe'))
+                if key == 'imp':
+                    res.count('but:imp:' + ','.join(sorted(val)))
         do_points = n_pts_done < n_points and not decreasing \
             and not voiding
         failures, obs = sweep_deck(res, deck, text, rng, do_points)
